@@ -816,6 +816,9 @@ def case_early(spec, ctx):
             n_steps = int(rng.integers(1, 4))
             max_iter = int(rng.integers(1, 4))
             cont = bool(rng.random() < 0.3)
+            if rng.random() < 0.5:
+                # far too few load steps but a generous iteration limit: an iteration that diverges has room to overflow
+                n_steps, max_iter = int(rng.integers(1, 3)), int(rng.integers(60, 150))
         optkw = draw_options(rng, P["fscale"], tight=False)
         optkw.update({"newton_max_iter": max_iter, "continue_with_unconverged": cont})
         S, rod = build_cantilever(P, np.eye(3), np.zeros(3))
